@@ -426,6 +426,8 @@ def copy_value(ex, v):
     if isinstance(v, Arr):
         r = Arr(v.term, v.shape, v.kind, v.name + ".copy", None, v.ghost)
         r.ghost["owner"] = "fresh"
+        if v.rank <= 1:
+            r.ghost["corder"] = True   # a 1-D copy is contiguous; for rank >= 2 .copy() keeps the source layout (order='K')
         return r
     if isinstance(v, (list, tuple)):
         return to_small(ex, v)
